@@ -72,6 +72,7 @@ ACTIONS = [
     ('stl-prefix-1-one-user-file', NOSTL, dict(w=64, use_stl=True, stl_prefix=1)),
     ('stl-prefix-1-three-user-files', PREFIXED, dict(w=64, use_stl=True, stl_prefix=1, extra_files=2)),
     ('stl-prefix-2-two-user-files', PREFIXED, dict(w=64, use_stl=True, stl_prefix=2, extra_files=1)),
+    ('stl-subset-that-warns-lenient', NOSTL, dict(w=64, use_stl=True, stl_select=(1,))),
     ('stl-prefix-2-trimmed-from-the-public-path-list', PREFIXED, dict(w=64, use_stl=True, stl_take=2)),
 ]
 CORE3 = ('hello64', 'fail-in-nested-ns', 'unknown-macro', 'recursion-depth-5', 'depth-2000', 'stl-other-short-names', 'defines-constants-then-fails',
@@ -98,6 +99,9 @@ PROBES = [
     ('p-lex-error-again', LEXFAIL, dict(w=64, use_stl=True, version=1)),
     ('p-fail-in-nested-ns-again', NSFAIL, dict(w=32, use_stl=False, version=1)),
     ('p-unknown-macro-again', UNKNOWN, dict(w=64, use_stl=True, version=1)),
+    # an stl subset whose own parse raises warnings: accepted in the lenient mode, refused when warnings are errors - whichever came first
+    ('p-stl-subset-that-warns-strict', NOSTL, dict(w=64, use_stl=True, version=1, stl_select=(1,), werror=True)),
+    ('p-stl-subset-that-warns-lenient', NOSTL, dict(w=64, use_stl=True, version=1, stl_select=(1,))),
     # an invalid file list (the user file carries the short name of the first stl file): refused whether or not the stl parse is cached
     ('p-user-file-with-an-stl-short-name', NOSTL, dict(w=64, use_stl=True, version=1, names=['s1'])),
     ('p-user-file-with-an-stl-short-name-32', NOSTL, dict(w=32, use_stl=True, version=1, names=['s2'])),
@@ -105,7 +109,7 @@ PROBES = [
 
 
 def do_assemble(text, wd, tag, w=64, use_stl=True, version=1, werror=False, max_recursion_depth=None, names=None, stl_names=None, subdir=None,
-                stl_prefix=None, extra_files=0, filename=None, stl_take=None):
+                stl_prefix=None, extra_files=0, filename=None, stl_take=None, stl_select=None):
     """assemble through the public assembler entry; -> (fjm bytes or None, fjd bytes or None, error class name)"""
     from flipjump.assembler import assembler
     from flipjump.fjm.fjm_consts import FJMVersion
@@ -126,6 +130,10 @@ def do_assemble(text, wd, tag, w=64, use_stl=True, version=1, werror=False, max_
         # only the first stl files in front of the user files (the parse cache keys on whatever stl files lead the list)
         tuples = tuples[:stl_prefix] + tuples[nstl:]
         nstl = stl_prefix
+    if stl_select is not None:
+        # a hand-picked subset of the stl files in front of the user file (e.g. one that raises parse warnings without the files it builds on)
+        tuples = [(f's{i + 1}', tuples[i][1]) for i in stl_select] + tuples[nstl:]
+        nstl = len(stl_select)
     if stl_take is not None:
         # the same reduced stl, built the way a caller would: take the public list of stl paths and trim ITS OWN list in place
         import flipjump
